@@ -7,6 +7,7 @@
 pub mod oq3_parser {
     use vstd::prelude::*;
     #[verifier::external_body] pub struct LexedStr<'a> { _p: std::marker::PhantomData<&'a str> }
+    pub use super::StrStep;
     #[verifier::external_body] pub struct Input { _p: u8 }
     #[verifier::external_body] pub struct Output { _p: u8 }
     /// `impl Iterator<Item = (usize, &str)>` returned by LexedStr::errors
